@@ -77,10 +77,10 @@ type zzRecChan struct{ evs []event.Event }
 func (r *zzRecChan) Send(e event.Event) { r.evs = append(r.evs, e) }
 
 var (
-	zzSrcs = []net.IP{net.IPv4(10, 0, 0, 7), net.IPv4(10, 0, 0, 8)}
-	zzDst  = net.IPv4(10, 0, 0, 1)
-	zzMacS = net.HardwareAddr{2, 0, 0, 0, 0, 7}
-	zzMacD = net.HardwareAddr{2, 0, 0, 0, 0, 1}
+	zzSrcs  = []net.IP{net.IPv4(10, 0, 0, 7), net.IPv4(10, 0, 0, 8)}
+	zzDst   = net.IPv4(10, 0, 0, 1)
+	zzMacS  = net.HardwareAddr{2, 0, 0, 0, 0, 7}
+	zzMacD  = net.HardwareAddr{2, 0, 0, 0, 0, 1}
 	zzPorts = []uint16{80, 443}
 )
 
